@@ -145,3 +145,18 @@ e1prop("C20", "Read-only use is race free (sufficient condition)", "C20.json",
        "effect analysis by symbolic execution: between effectsBegin and effectsEnd every store (incl. the receiver-writes of the math/big model) whose target existed before the call is an obligation 'unreachable on every feasible path'. A read-only method that passes executes no write to shared memory, which implies race freedom and sequential results for concurrent read-only use. A violated obligation is confirmed natively by running two goroutines on one shared value under go test -race.",
        ["edwards25519vartime projPoint and extPoint: MarshalBinary, String, Data, Equal, Clone, MarshalSize, and use as operand of Add / Neg / Set on a fresh receiver; arbitrary coordinates; one call"],
        ["the Go scheduler's interleavings are not explored (not needed when the condition holds; not decidable by this technique when it fails: then the race detector run is the confirmation)", "external libraries and their internal caches; pairing evaluation; suites' random streams", "this is a weaker, sequential reading of the property's race-detector wording"])
+
+e1prop("C03", "Encodings: fixed length, canonical, round trip", "C03.json",
+       "feToBytes produces the canonical 32-byte little-endian encoding of value mod p (value in [0,p-1], bit 255 clear) for all in-bound limb vectors, in two pieces (limbs -> canonical limbs, canonical limbs -> bytes); feFromBytes represents LE(bytes mod 2^255) mod p for all 2^256 strings (together: decode(encode(x)) = x and re-encoding is byte-identical); the scalar byte packing of scAdd/scMulAdd/scReduce is the exact LE encoding of the canonical result; scalar.UnmarshalBinary carries exactly the 32 bytes (other lengths refused, value untouched); point.Equal <=> all 32 encoding bytes equal; mod.Int.UnmarshalBinary accepts exactly MarshalSize bytes with value < modulus in both byte orders; the stream wrappers PointMarshalTo / PointUnmarshalFrom carry exactly the bytes of MarshalBinary / hand exactly MarshalSize bytes to UnmarshalBinary for every stream length and chunking in the bound.",
+       ["field/scalar kernels: all inputs; scalar.UnmarshalBinary lengths {0,31,32,33,64}; mod.Int moduli {251, 65521} x both byte orders x lengths {0, size-1, size, size+1}; stream wrappers: 5-byte encodings, streams of 0..8 bytes in chunks of 1,2,5,8"],
+       ["kilic/circl/gnark serialisers, P-256 and bn256 MarshalBinary (padding offsets) and the hex helpers of util/encoding: not encoded yet", "mod.Int.MarshalBinary needs math/big.Bytes of a symbolic value (symbolic length): not encoded"])
+
+e1prop("C17", "Pick / Embed / hash-to-group (byte logic)", "C17.json",
+       "Ed25519 Embed and Data with the group arithmetic stubbed (FromBytes / ToBytes / Mul / Equal return arbitrary recorded values): for every data length in the bound and all contents, the candidate handed to the decoder carries length byte min(29, len) and the data at offset 1; a returned point passed its membership test on the last attempt (l*P = O with data, cofactor multiplication and P != O without); Data returns exactly the embedded bytes for every length byte <= 29 and an error above, never a slice panic.",
+       ["quick: Embed data lengths {nil, 0, 1, 29, 30} (thorough + {2, 15, 28, 31, 32, 37}), at most 2 attempts (stated assumption); Data length bytes {0, 1, 29, 30, 255} (thorough + {2, 15, 28, 31, 32, 127, 128})"],
+       ["that hash-to-curve outputs are on the curve / in the subgroup (Elligator2, SvdW, SSWU over hash outputs), RFC 9380 vectors, BLS back-ends", "p256 / residue / bn256 / vartime Embed: not encoded yet", "'differs for different messages' is the hash's property"])
+
+e1prop("C18", "Implementations and build variants agree (through a common reference model)", "C18.json",
+       "the pure-Go field arithmetic selected by the build tag `generic` (bn256 and bn254 gfpAdd, gfpSub, gfpNeg, gfpCarry; the package is loaded with -tags generic) computes exactly (a+b) mod p, (a-b) mod p, (-a) mod p with results < p for ALL 256-bit a, b < p - the reference model that the assembly of the default build is trusted to implement; the Ed25519 kernels of C01/C02 are build-variant independent Go code verified against the same integer model.",
+       ["all 2^256-bit operands below p (bit-vector queries, 4 x uint64 limbs, loops of 4 iterations fully unrolled)"],
+       ["amd64/arm64 assembly (not encodable: only the Go side is)", "gfpMul (Montgomery, 16x32-bit partial products) not encoded yet", "kilic vs circl vs gnark (external), P-256 vs reference, constantTime build (bigmod.Nat model not built), whole-program transcripts"])
